@@ -2,3 +2,6 @@ NOT_APPLICABLE = {}
 chk("C06", "runtime monitoring: set-model oracle over random operation histories + index-agreement invariant hook",
     "Random add/remove/contains/query/list/count/merge histories on all 11 store kinds are compared step by step with a Go-map set model keyed by a canonical encoding; multi-indexed stores are additionally walked by a verif-tagged invariant hook. Held on the histories executed; says nothing about histories not generated.",
     "Trusts the harness's canonical encoding (independent of Hash/Equals/String) and the layered model of merged/teeing stores as documented in factstore.go.")
+chk("C13", "runtime monitoring: brute-force interval oracle over insertion histories + interval-tree invariant hook",
+    "Insertion/coalesce histories on a dense discrete timeline; every point, range and full-scan answer, duplicates, limit errors and counts are compared with brute force over the list of inserted pairs; a verif-tagged walker checks search-tree order, maxEnd soundness and size of every tree at each quiescent point. Held on the histories executed.",
+    "Atoms of the workload have distinct hashes (hash conflation is the C06 finding). Coalesce is judged by preserved instants and pairwise separation of finite intervals, not by a particular representation.")
